@@ -15,6 +15,7 @@ import (
 
 	"github.com/godaddy/asherah/go/appencryption"
 
+	"verif/harness/creators"
 	"verif/harness/ev"
 	"verif/harness/probe"
 	"verif/harness/sched"
@@ -413,7 +414,7 @@ func exploreSchedules(t *testing.T, r *ev.Run, prop string, cellFilter func(sche
 
 func TestC14(t *testing.T) {
 	r := ev.Start("C14", "exploration")
-	r.Rule("every interleaving, at the granularity of individual metastore calls, of 2 (and 3) processes - each its own factory and session over one gated, monitored metastore, same virtual time so truncated creation stamps collide - enumerated depth-first with replay from the starting states cold, both keys expired, SK expired/IK valid, IK revoked, SK revoked, one long-lived process with stale caches; the controller releases exactly one parked call per step (synctest.Wait = everybody parked). After each schedule: every encrypt succeeded, every record's IK row and its SK row exist, every process and a fresh factory decrypt every record, rows never changed. Distinct+non-trivial: schedules in which at least one insert was refused.")
+	r.Rule("every interleaving, at the granularity of individual metastore calls, of 2 (and 3) processes - each its own factory and session over one gated, monitored metastore, same virtual time so truncated creation stamps collide - enumerated depth-first with replay from the starting states cold, both keys expired, SK expired/IK valid, IK revoked, SK revoked, one long-lived process with stale caches; the controller releases exactly one parked call per step (synctest.Wait = everybody parked). After each schedule: every encrypt succeeded, every record's IK row and its SK row exist, every process and a fresh factory decrypt every record, rows never changed. Plus real-goroutine rounds over every back end in which six cold processes encrypt for one new partition with their key inserts overlapping inside the metastore implementation. Distinct+non-trivial: schedules in which at least one insert was refused.")
 	r.Assume("processes are modelled as separate factories sharing the metastore and KMS; one virtual clock for all", "quick tier truncates each cell (exhaustive=false then); thorough enumerates the 2-process cells completely and caps 3-process cells")
 	max := ev.Pick(350, 40000)
 	exploreSchedules(t, r, "C14", func(c schedCell) bool {
@@ -428,5 +429,8 @@ func TestC14(t *testing.T) {
 		}, ev.Pick(120, 4000), false)
 		schedBackend = "memory"
 	}
+	// real goroutines: the gated schedules above execute one metastore call at a time; here the inserts of six cold
+	// processes overlap inside the metastore implementation itself
+	creators.Run(r, "C14", ev.Pick(40, 800), journal)
 	r.Finish(t)
 }
